@@ -86,7 +86,7 @@ func (p *Path) zero(t types.Type) Value {
 	case *types.Pointer:
 		return PtrV{Type: t}
 	case *types.Struct:
-		if isOpaqueType(t) {
+		if isOpaqueType(t) || p.E.isTimeLike(t) {
 			return OpaqueV{Type: t, Tok: smt.Int(0)}
 		}
 		fs := make([]Value, u.NumFields())
@@ -122,7 +122,7 @@ func (p *Path) zero(t types.Type) Value {
 }
 
 func isOpaqueType(t types.Type) bool {
-	if n, ok := t.(*types.Named); ok && n.Obj().Pkg() != nil {
+	if n, ok := types.Unalias(t).(*types.Named); ok && n.Obj().Pkg() != nil {
 		full := n.Obj().Pkg().Path() + "." + n.Obj().Name()
 		switch full {
 		case "time.Time":
@@ -913,4 +913,19 @@ func (e *Engine) isInitPkg(pkg *ssa.Package) bool {
 	}
 	// goag's own packages are initialised (their package-level values are plain)
 	return strings.HasPrefix(pkg.Pkg.Path(), "github.com/vkd/goag")
+}
+
+// isTimeLike: time.Time or a named type defined as time.Time.
+func (e *Engine) isTimeLike(t types.Type) bool {
+	if isOpaqueType(t) {
+		return true
+	}
+	tt := e.namedType("time", "Time")
+	if tt == nil {
+		return false
+	}
+	if _, ok := t.Underlying().(*types.Struct); !ok {
+		return false
+	}
+	return types.Identical(t.Underlying(), tt.Underlying())
 }
